@@ -95,6 +95,10 @@ def run(ctx):
     # ---- R4 -----------------------------------------------------------------
     k2_unreachable(ctx, "R4-keep-tags", where, g, {"keep_tags": True, "not keep_tags": False}, rt, "keep_tags: no tag is removed")
     k2_unreachable(ctx, "R4-keep-tags", where, g, {"branch.supports_tags()": False}, rt, "branches without tag support are left alone")
+    # the revisions counted as "still referenced" by remove_tags include the pending merges only when a tree re-records them
+    ext = calling(g, attr="extend", recv="parents")
+    if ext:
+        k2_unreachable(ctx, "R4-kept-set-needs-tree", where, g, {"tree is not None": False, "tree is None": True}, ext, "without a tree the removed merge parents are not counted as still referenced (their tags are dropped)")
     rargs = {tuple(norm(a) for a in c.args) for i in rt for c in g.nodes[i].calls() if (call_attr(c) or "") == "remove_tags"}
     ctx.check("R4-remove-tags-args", where, rargs == {("branch", "graph", "old_tip", "parents")}, "remove_tags(branch, graph, old_tip, parents)", construct=str(rargs))
     rf = RustFile(repo, RS)
